@@ -3,7 +3,7 @@
 # (patch compiles, suite passes, demo fails with / passes without), then runs the
 # property's check (and optionally others) against it. Writes /verif/seeded/<id>/.
 set -u
-id="$1"; src="/tmp/seed/$id.out"; name="${2:-$id}"
+id="$1"; src="/tmp/seed/$id.out"; name="${2:-$id}"; prop="${id:0:3}"
 export GOFLAGS=-mod=mod GOPROXY=off GOSUMDB=off GOTOOLCHAIN=local
 [ -f "$src/patch.diff" ] || { echo "no patch for $id"; exit 2; }
 wt=$(mktemp -d /tmp/evalseed-XXXXXX); rmdir "$wt"
@@ -29,13 +29,13 @@ mkdir -p /verif/seeded/$name
 cp "$src/patch.diff" "$src/zz_seed_demo_test.go" /verif/seeded/$name/
 # run the property's own check first, then every other check
 caught=""; detail=""
-for p in $id $(python3 -c "import json;print(' '.join(c['property_id'] for c in json.load(open('/verif/MANIFEST.json'))['checks'] if c['property_id']!='$id'))"); do
+for p in $prop $(python3 -c "import json;print(' '.join(c['property_id'] for c in json.load(open('/verif/MANIFEST.json'))['checks'] if c['property_id']!='$prop'))"); do
   out=$(/verif/tools/mutcheck.sh "$src/patch.diff" $p 2>&1); rc=$?
   if [ $rc -eq 1 ]; then
     v=$(echo "$out" | grep VIOLATION | sed 's/.*obligation=\([^ ]*\) status=\([^ ]*\)\(.*\)/\1 (\2\3)/' | head -4 | tr '\n' ';')
     caught="$caught $p"; detail="$detail $p: $v"
   elif [ $rc -ne 0 ]; then detail="$detail $p: rc=$rc;"; fi
-  [ "$p" = "$id" ] && [ $rc -eq 1 ] && [ -z "${ALLPROPS:-}" ] && break
+  [ "$p" = "$prop" ] && [ $rc -eq 1 ] && [ -z "${ALLPROPS:-}" ] && break
 done
 python3 - "$id" "$name" "$caught" "$detail" <<'PY'
 import json,sys
